@@ -546,6 +546,17 @@ func (n *pnode) prismProfile() (res *model3d.Mesh, ok bool) {
 	if st != "ok" || res == nil || res.NumTriangles() == 0 || res.NeedsRepair() {
 		return nil, false
 	}
+	// the triangulation may emit zero-area triangles on collinear vertices: such a surface touches
+	// itself, which is outside the property's "non-intersecting" inputs
+	flat := false
+	res.Iterate(func(t *model3d.Triangle) {
+		if t[1].Sub(t[0]).Cross(t[2].Sub(t[0])) == (model3d.Coord3D{}) {
+			flat = true
+		}
+	})
+	if flat {
+		return nil, false
+	}
 	return res, true
 }
 
